@@ -181,3 +181,6 @@ PLANS["C02"]["jobs"] = multi(PLANS["C02"]["jobs"], uniproc_jobs("linzcache", 400
 
 # C13: shrink requests racing each other (a request that arrives while a shrink runs, an abandoned shrink) must not strand anybody
 PLANS["C13"]["jobs"] = multi(PLANS["C13"]["jobs"], simple("sizeq", (240, 0), (10000, 0), stripes_q=8))
+
+# C07: what a traversal shows after two overlapping calls on one key (expired entries must stay hidden)
+PLANS["C07"]["jobs"] = multi(PLANS["C07"]["jobs"], oppair_jobs)
